@@ -150,3 +150,61 @@ for (_ne, _nt, _nd) in _EVAL_BOUNDS:
         ensures=["eval_ok(result, self.sched_obj, etime, trace('effective')[0][-1], [c[-1] for c in trace('period_match')] + [False, False], probe)"],
         max_paths=60000,
         note="bounded in structure; `probe` is a universally quantified time for the stability clause")
+
+# -- eval with a calendar-reference period: the exception is in force exactly on the days some entry of the referenced calendar's date list matches ----
+
+class GhostCalApp(object):
+    """the application of the schedule object: resolves the calendar reference"""
+    def get_object_id(self, ref):
+        return self.objects.get(ref)
+
+CAL_ID = ('calendar', 1)
+
+def SchedObjRef(ncal, ntv, ndaily, known=True):
+    def build(b, name):
+        c = SchedObj(1, ntv, ndaily).build(b, name)
+        period = c.exceptionSchedule[0].period
+        period.calendarEntry = None
+        period.calendarReference = CAL_ID
+        cal = Entry()
+        cal.dateList = [Tok('%s.cal%d' % (name, i)) for i in range(ncal)]
+        app = GhostCalApp()
+        app.objects = {CAL_ID: cal} if known else {}
+        c._app = app
+        return c
+    return Fn(build)
+
+def any_match(calls, ncal):
+    """the referenced calendar matches when one of its entries does; the code may stop asking at the first match, but must ask until then"""
+    got = [c[-1] for c in calls]
+    if any(got):
+        return True
+    return False if len(got) == ncal else None
+
+def eval_ref_ok(result, c, etime, in_period, calls, ncal, probe):
+    if not in_period:
+        return eval_ok(result, c, etime, in_period, [False, False, False], probe)       # outside the effective period nothing is asked
+    m = any_match(calls, ncal)
+    if m is None:
+        return False            # gave up before the date list was exhausted
+    return eval_ok(result, c, etime, in_period, [m, False, False], probe)
+
+_REF_BOUNDS = [(0, 1, 0), (1, 1, 0), (2, 1, 0)] + ([(1, 1, 1), (2, 1, 1), (2, 2, 0)] if os.environ.get('VERIF_TIER', 'quick') == 'thorough' else [])
+for (_nc, _nt, _nd) in _REF_BOUNDS:
+    contract("bacpypes.local.schedule:LocalScheduleInterpreter.eval",
+        name="bacpypes.local.schedule:LocalScheduleInterpreter.eval[calendar reference with %d entries, %d time values, %d daily entries]" % (_nc, _nt, _nd),
+        params={"self": Obj("bacpypes.local.schedule:LocalScheduleInterpreter", sched_obj=SchedObjRef(_nc, _nt, _nd), taskTime=Const(None), isScheduled=Const(False)),
+                "edate": Tuple(Int(0, 254), Int(1, 12), Int(1, 31), Int(1, 7)), "etime": TimeShape(), "probe": TimeShape()},
+        requires=["cfg_ok(self.sched_obj)"],
+        ensures=["eval_ref_ok(result, self.sched_obj, etime, trace('effective')[0][-1], trace('period_match'), %d, probe)" % _nc],
+        max_paths=60000,
+        note="bounded in structure; each entry of the referenced calendar matches or not arbitrarily (the matcher is verified on its own)")
+
+contract("bacpypes.local.schedule:LocalScheduleInterpreter.eval",
+    name="bacpypes.local.schedule:LocalScheduleInterpreter.eval[calendar reference to an unknown object]",
+    params={"self": Obj("bacpypes.local.schedule:LocalScheduleInterpreter", sched_obj=SchedObjRef(0, 1, 0, known=False), taskTime=Const(None), isScheduled=Const(False)),
+            "edate": Tuple(Int(0, 254), Int(1, 12), Int(1, 31), Int(1, 7)), "etime": TimeShape()},
+    requires=["cfg_ok(self.sched_obj)"],
+    only_raises=(RuntimeError,), raise_ensures=["trace('effective')[0][-1] == True"],
+    ensures=["result is None and trace('effective')[0][-1] == False"],
+    note="a dangling calendar reference is reported (RuntimeError) on every day of the effective period instead of being read as 'no exception'; outside the period nothing is evaluated")
